@@ -1,7 +1,7 @@
 import Wayfind.Model.Errors
 import Wayfind.Spec.Fault
 import Wayfind.Proofs.ParseErrors
-import Wayfind.Proofs.ParseFault4
+import Wayfind.Proofs.ParenFault4
 
 /-! # C14 — template errors point at the real fault
 Rendering half (model of `impl Display for TemplateError`, compared byte for byte with the implementation on every
@@ -11,15 +11,15 @@ occurrence (`C14_duplicate_caret_runs`, for ranges inside the template).
 Fault half, proved (`C14_error_is_about_input_or_expansion`): an `Empty` error only for the empty input; a parenthesis
 error (`()` / unmatched) carries the input itself; every other error carries one of the grammar's expansions of the
 input, and all its positions and lengths lie inside that text (for a duplicated name: two disjoint ranges in order).
-Fault half, second part, proved (`C14_fault_is_present`): for `Empty` and for all ten variants produced by
-`parse_template` (missing slash, `{}`, unbalanced brace, empty / invalid parameter name, empty wildcard, empty /
-invalid constraint, touching parameters, duplicated name) the indicated bytes of that expansion *are* the construct:
-`faultPresent` of Spec/Fault.lean holds (e.g. for a duplicate: both ranges are brace-delimited parameters of the
-expansion, in order and disjoint, and both have the reported name).
-Status: **partial** — for the two parenthesis variants (`()` and unmatched `(`/`)`, produced while expanding) the
-theorem gives the carried text (= the input) but not the position; their `faultPresent` clauses (position is an
-unescaped `()` pair / an unmatched unescaped parenthesis) are evaluated as an oracle on the implementation's own
-error for every rejected string of the exhaustive parser streams. -/
+Fault half, second part, proved (`C14_fault_is_present`): for **all thirteen variants** the indicated bytes *are*
+the construct — `faultPresent` of Spec/Fault.lean holds for every error `parse_templates` returns: `Empty` only for
+the empty input; `()` at an unescaped `(` `)` pair of the input; an unbalanced parenthesis at a position the usual
+stack matching (escapes skipped) leaves unmatched; and for the ten variants produced by `parse_template` (missing
+slash, `{}`, unbalanced brace, empty / invalid parameter name, empty wildcard, empty / invalid constraint, touching
+parameters, duplicated name) the indicated range of the carried expansion is the brace-delimited parameter with that
+defect (for a duplicate: both ranges are parameters of the expansion, in order, disjoint, both with the reported name).
+What is modelled rather than proved: the byte-level rendering (`TErr.render`) is a hand-written model of
+`impl Display`, compared byte for byte with the implementation on every error of every run. -/
 
 theorem C14_caret_line (title t trailer : Bytes) (start len : Nat) :
     renderWith title t (spaces start ++ carets len) trailer =
@@ -75,11 +75,10 @@ theorem C14_error_is_about_input_or_expansion (input : Bytes) (e : TErr) (h : pa
     ∃ es raw, topExpansions input = some es ∧ raw ∈ es ∧ e.tpl = some raw ∧ e.inside raw :=
   parseTemplates_error_cases input e h
 
-/-- the fault an error names is present in the text it carries (all variants except the two parenthesis ones, for
-which `C14_error_is_about_input_or_expansion` gives the carried text) -/
+/-- the fault an error names is present in the text it carries (all variants) -/
 theorem C14_fault_is_present (input : Bytes) (e : TErr) (h : parseTemplates input = .error e) :
-    e.isParen input ∨ faultPresent input e = true :=
-  parseTemplates_fault_present input e h
+    faultPresent input e = true :=
+  parseTemplates_fault input e h
 
 /-- non-vacuity: a duplicated name is reported with both of its occurrences -/
 example : parseTemplates [47, 123, 97, 125, 47, 123, 97, 125] = .error (.duplicateParameter [47, 123, 97, 125, 47, 123, 97, 125] [97] 1 3 5 3) ∧
